@@ -114,7 +114,7 @@ def post_threads(cases, obs_list):
     for ci, (case, obs) in enumerate(zip(cases, obs_list)):
         cfg = to_coq(progs.c_config(case))
         pre = to_coq([progs.c_preop(o) for o in case["pre"]])
-        progs_c = to_coq([[progs.c_stmt(s) for s in th] for th in case["threads"]])
+        progs_c = to_coq([progs.c_stmts(th) for th in case["threads"]])
         ids = to_coq([Nat(i) for i in progs.all_dest_ids(case)])
         for ri, r in enumerate(obs["runs"]):
             if "hang" in r:
